@@ -44,6 +44,11 @@ func isIntLike(f float64) bool {
 	return f == math.Trunc(f) && math.Abs(f) <= 9007199254740992
 }
 func rawValue(f float64) goja.Value {
+	if math.IsNaN(f) {
+		// goja has one NaN (_NaN = math.NaN()); a valueFloat with another payload is not reachable from
+		// scripts or ToValue (every producer goes through floatToValue), so the harness must not forge one
+		return goja.VerifRawFloat(math.NaN())
+	}
 	if isIntLike(f) {
 		return goja.VerifRawInt(int64(f))
 	}
@@ -478,7 +483,11 @@ func runCase(c Case) vh.Record {
 		if !ok {
 			return vh.Record{Case: raw, Coq: failTerm, Obs: obsJSON(map[string]interface{}{"r": rep}), Tags: append(tags, "notnumber")}
 		}
-		return vh.Record{Case: raw, Coq: fmt.Sprintf("CStr %s %s", vh.CoqList(zs), rt), Obs: obsJSON(map[string]interface{}{"src": src, "r": rep}), Tags: tags, Nontrivial: true}
+		ctor := "CStr"
+		if c.Op == "abs" {
+			ctor = "CStrAbs"
+		}
+		return vh.Record{Case: raw, Coq: fmt.Sprintf("%s %s %s", ctor, vh.CoqList(zs), rt), Obs: obsJSON(map[string]interface{}{"src": src, "r": rep}), Tags: tags, Nontrivial: true}
 	case "pow":
 		x, _ := strconv.ParseInt(c.X, 10, 64)
 		vm.Set("a", rawValue(float64(x)))
